@@ -162,10 +162,10 @@ func runCrash(l *trace.Log, s *Scenario) {
 	// strace keeps one invocation counter PER SYSCALL: the crash points are (syscall, its n-th invocation)
 	// for every invocation between the markers, in the order of the numbering run
 	type job struct {
-		k    int // position of the step inside the install (1-based)
-		sys  string
-		n    int // n-th invocation of sys since process start
-		evs  [][]any
+		k   int // position of the step inside the install (1-based)
+		sys string
+		n   int // n-th invocation of sys since process start
+		evs [][]any
 	}
 	var jobs []*job
 	count := map[string]int{}
